@@ -280,10 +280,37 @@ class Vit:
                         s["env"][ln["name"]] = val
             return states
         # expression statement
+        cv = self.clamp_assign(i)
+        if cv is not None:
+            # v = (v < WORST) ? WORST : v   - the clamp written as a conditional expression (or the
+            # body of a clamp function presented in place of its call)
+            for s in states:
+                s["events"].append(("clamp", cv, i))
+            return states
         for s in states:
             self.cur = s
             self.ev(i, s["env"])
         return states
+
+    def clamp_assign(self, i):
+        fn = self.fn
+        j = fn.strip(i)
+        if fn.k(j) != "Assign" or fn.nodes[j].get("op") != "=":
+            return None
+        l, r = fn.strip(fn.ch(j)[0]), fn.strip(fn.ch(j)[1])
+        if fn.k(l) != "DeclRef" or fn.k(r) != "Cond":
+            return None
+        v = fn.nodes[l]["name"]
+        c, a, b = fn.ch(r)
+        cj = fn.nodes[fn.strip(c)]
+        if cj["k"] != "Bin" or cj["op"] not in ("<", ">"):
+            return None
+        x, y = fn.strip(cj["ch"][0]), fn.strip(cj["ch"][1])
+        isv = lambda n: fn.k(n) == "DeclRef" and fn.nodes[n]["name"] == v
+        below = (cj["op"] == "<" and isv(x) and fn.constval(cj["ch"][1]) == WORST) or (cj["op"] == ">" and isv(y) and fn.constval(cj["ch"][0]) == WORST)
+        if below and fn.constval(a) == WORST and isv(fn.strip(b)):
+            return v
+        return None
 
     def special_if(self, i, s):
         """clamp: if (v < WORST) v = WORST;   best: if (v > best) best = v;"""
@@ -444,6 +471,7 @@ class Vit:
                 st = {"events": []}
                 if self.special_if(i, st) is not None and st["events"] and st["events"][0][1] == var:
                     (clamps if st["events"][0][0] == "clamp" else bests).append(i)
+            tern = [i for i in fn.find("Assign") if self.clamp_assign(i) == var]
             direct = [s["node"] for s in paths.stores(fn) if s["path"] == "bestScore" and s["rhs"] is not None and fn.canon(s["rhs"], subst=False) == var and fn.enclosing(s["node"], ("If",)) not in bests]
             # every path from a definition of var to the store passes a clamp
             defs = [d for d in paths.defs_of_local(fn, [n_["decl"] for n_ in fn.nodes if n_.get("k") in ("Var",) and n_.get("name") == var][0])]
@@ -454,6 +482,10 @@ class Vit:
             clampassign = set()
             for c in clamps:
                 clampassign.update(x for x in fn.walk(fn.ch(c)[1]) if fn.k(x) == "Assign")
+            for t_ in tern:
+                # the clamping assignment re-defines the variable with its clamped value
+                clampassign.add(t_)
+                clampconds.add(t_)
             okc = True
             for d in defs:
                 if d in clampassign:
